@@ -1,6 +1,8 @@
 package mon
 
 import (
+	"math/big"
+
 	"filippo.io/edwards25519"
 	"verifharness/gen"
 	"verifharness/ref"
@@ -42,6 +44,36 @@ func C06(c *Ctx) {
 		}
 		p := r.PointFor(m1, cls)
 		q := r.PointFor(m2, rel)
+		// Equal compares cross products X1*Z2 vs X2*Z1 (and Y): for unequal points sharing a
+		// coordinate, choose Q's projective scale so that the DIFFERENCE of the cross products
+		// is a structured value (power of two, limb pattern, small): an inexact comparison that
+		// ignores some bits shows up exactly there.
+		if (kind == 4 || kind == 5 || kind == 3) && i%20 >= 10 && p.P != nil {
+			delta := gen.FieldClasses()[r.Intn(len(gen.FieldClasses()))].V
+			if r.Bool() {
+				delta = new(big.Int).Lsh(big.NewInt(1), uint(r.Intn(255)))
+			}
+			// P in Z=1 form: t1 - t2 = x1*Z2 - x2*Z2 = (x1 - x2)*lam; likewise for y
+			d := ref.FSub(m1.X, m2.X)
+			if kind == 5 || d.Sign() == 0 {
+				d = ref.FSub(m1.Y, m2.Y)
+			}
+			if d.Sign() != 0 && ref.Fe(delta).Sign() != 0 {
+				lam := ref.FMul(delta, ref.FInv(d))
+				pp, _ := r.LibPoint(m1, 0)
+				X, Y, Z, T := gen.ExtOf(m2, lam)
+				ex, ey, ez, et := gen.Canon(X), gen.Canon(Y), gen.Canon(Z), gen.Canon(T)
+				if r.Bool() {
+					ex, _ = r.RandRepr(X)
+					ez, _ = r.RandRepr(Z)
+				}
+				if qq, err := new(edwards25519.Point).SetExtendedCoordinates(ex, ey, ez, et); err == nil && pp != nil {
+					p = gen.PC{M: m1, P: pp, Class: cls, Build: "decode"}
+					q = gen.PC{M: m2, P: qq, Class: rel, Build: "ext(cross-product difference structured)"}
+					rel += " [structured cross-product difference]"
+				}
+			}
+		}
 		if !validPoint(r, &p) || !validPoint(r, &q) {
 			c.Fail("construction", map[string]any{"why": "SetExtendedCoordinates rejected valid coordinates repeatedly"})
 			continue
